@@ -12,6 +12,9 @@ Helper lemmas about the executable model `SynKit.Repr.implicitHydrogen`
 (`synkit/Graph/Hyrogen/_misc.py`, `implicit_hydrogen(graph, preserve_atom_maps, reindex=False)`).
 The property theorems built on them are in `SynKitProofs/Props/C01.lean`.
 
+The model follows the F29 repair (draft fix 0022): a hydrogen node is removed iff it is a hydrogen,
+is not preserved, and has at least one non-hydrogen neighbour (`goes`); everything else `stays`.
+
 Plan: (A) closed form of the node and edge lists of the result; (B) counting lemmas (adjacency is
 symmetric, double counting over the edge list); (C) per-node hydrogen count and the total
 hydrogen count; (D) the result only depends on the labelled graph (`MolEq`-congruence), used to
@@ -29,21 +32,56 @@ def keepsH (K : List Nat) (a : Attrs) : Bool :=
 /-- `preserved_hydrogens` (node ids, in node order). -/
 def pres (g : LGraph) (K : List Nat) : List Nat := (g.nodes.filter fun p => keepsH K p.2).map (·.1)
 
-/-- a node that `implicit_hydrogen` does not remove: a heavy atom or a preserved hydrogen. -/
-def stays (g : LGraph) (K : List Nat) (v : Nat) : Bool := !(isH (g.attrs v)) || (pres g K).contains v
+/-- a hydrogen that is going to be removed (F29 repair): a hydrogen that is not preserved and has
+at least one non-hydrogen neighbour. -/
+def goes (g : LGraph) (K : List Nat) (v : Nat) : Bool :=
+  isH (g.attrs v) && !(pres g K).contains v && hasHeavyNbr g v
 
-/-- a hydrogen neighbour that is going to be removed. -/
-def goes (g : LGraph) (K : List Nat) (v : Nat) : Bool := isH (g.attrs v) && !(pres g K).contains v
+/-- a node that `implicit_hydrogen` does not remove: a heavy atom, a preserved hydrogen, or a
+hydrogen without a non-hydrogen neighbour (free H, H+, H-, the atoms of H2). -/
+def stays (g : LGraph) (K : List Nat) (v : Nat) : Bool := !(goes g K v)
 
 /-- number of hydrogens folded into the count of `v`: its removed hydrogen neighbours. -/
 def folded (g : LGraph) (K : List Nat) (v : Nat) : Nat := ((g.neighbors v).filter (goes g K)).length
 
-/-- The guard of hydrogen conservation: every hydrogen node that is not preserved carries no
-count of its own and has exactly one heavy neighbour (which takes it over). -/
+/-- The guard of hydrogen conservation: every hydrogen node that is *removed* — not preserved and
+with at least one heavy neighbour — carries no count of its own and has exactly one heavy
+neighbour (which takes it over).  Hydrogens without heavy neighbour need no guard: they stay. -/
 def FoldGuard (g : LGraph) (K : List Nat) : Prop :=
-  ∀ p ∈ g.nodes, isH p.2 = true → keepsH K p.2 = false → hcnt p.2 = 0 ∧ heavyNbrs g p.1 = 1
+  ∀ p ∈ g.nodes, isH p.2 = true → keepsH K p.2 = false → heavyNbrs g p.1 ≠ 0 →
+    hcnt p.2 = 0 ∧ heavyNbrs g p.1 = 1
 
 instance (g : LGraph) (K : List Nat) : Decidable (FoldGuard g K) := by unfold FoldGuard; infer_instance
+
+/-- The guard as it had to be stated before the F29 repair (every non-preserved hydrogen, free or
+not, has exactly one heavy neighbour). It implies `FoldGuard`. -/
+def FoldGuardStrict (g : LGraph) (K : List Nat) : Prop :=
+  ∀ p ∈ g.nodes, isH p.2 = true → keepsH K p.2 = false → hcnt p.2 = 0 ∧ heavyNbrs g p.1 = 1
+
+instance (g : LGraph) (K : List Nat) : Decidable (FoldGuardStrict g K) := by
+  unfold FoldGuardStrict; infer_instance
+
+theorem foldGuard_of_strict (g : LGraph) (K : List Nat) (h : FoldGuardStrict g K) : FoldGuard g K :=
+  fun p hp hH hk _ => h p hp hH hk
+
+/-- C10's valence guard (every hydrogen node: no count, at most one heavy neighbour) gives
+`FoldGuard` for every `keep` list. -/
+theorem foldGuard_of_hValence (g : LGraph) (K : List Nat) (hv : HValence g) : FoldGuard g K := by
+  intro p hp hH _ hne
+  have := hv p hp hH
+  exact ⟨this.1, by omega⟩
+
+theorem hasHeavyNbr_iff (g : LGraph) (v : Nat) : hasHeavyNbr g v = true ↔ heavyNbrs g v ≠ 0 := by
+  unfold hasHeavyNbr heavyNbrs
+  rw [List.any_eq_true, Ne, List.length_eq_zero_iff, List.filter_eq_nil_iff]
+  constructor
+  · rintro ⟨x, hx, hh⟩ h; exact h x hx hh
+  · intro h
+    by_contra hc
+    exact h (fun x hx hh => hc ⟨x, hx, hh⟩)
+
+theorem hasHeavyNbr_false_iff (g : LGraph) (v : Nat) : hasHeavyNbr g v = false ↔ heavyNbrs g v = 0 := by
+  rw [← Bool.not_eq_true, hasHeavyNbr_iff, not_not]
 
 /-! ## (A) Closed form -/
 
@@ -67,10 +105,13 @@ def presRaw (g1 : LGraph) (K : List Nat) : List Nat :=
 theorem implicitHydrogen_eq (g : LGraph) (K : List Nat) :
     implicitHydrogen g K =
       { nodes := (g2of (g1of g) (presRaw (g1of g) K)).nodes.filter fun p =>
-          !(isH p.2) || (presRaw (g1of g) K).contains p.1
+          !(isH p.2 && !((presRaw (g1of g) K).contains p.1) &&
+            hasHeavyNbr (g2of (g1of g) (presRaw (g1of g) K)) p.1)
         edges := (g2of (g1of g) (presRaw (g1of g) K)).edges.filter fun e =>
-          (!(isH ((g2of (g1of g) (presRaw (g1of g) K)).attrs e.1)) || (presRaw (g1of g) K).contains e.1) &&
-          (!(isH ((g2of (g1of g) (presRaw (g1of g) K)).attrs e.2.1)) || (presRaw (g1of g) K).contains e.2.1) } :=
+          !(isH ((g2of (g1of g) (presRaw (g1of g) K)).attrs e.1) && !((presRaw (g1of g) K).contains e.1) &&
+            hasHeavyNbr (g2of (g1of g) (presRaw (g1of g) K)) e.1) &&
+          !(isH ((g2of (g1of g) (presRaw (g1of g) K)).attrs e.2.1) && !((presRaw (g1of g) K).contains e.2.1) &&
+            hasHeavyNbr (g2of (g1of g) (presRaw (g1of g) K)) e.2.1) } :=
   rfl
 
 theorem F1_fst (g : LGraph) (p : Nat × Attrs) : (F1 g p).1 = p.1 := by
@@ -411,17 +452,35 @@ theorem isH_Ffin (g : LGraph) (K : List Nat) (p : Nat × Attrs) : isH (Ffin g K 
   · rfl
   · exact isH_set_hcount _ _
 
-theorem nH_sub (g : LGraph) (hn : g.ids.Nodup) (K : List Nat) (v : Nat) :
+/-- a neighbour of a heavy atom has a heavy neighbour. -/
+theorem hasHeavyNbr_of_nbr_heavy (g : LGraph) (v n : Nat) (hv : isH (g.attrs v) = false)
+    (hn : n ∈ g.neighbors v) : hasHeavyNbr g n = true := by
+  unfold hasHeavyNbr
+  rw [List.any_eq_true]
+  refine ⟨v, ?_, by simp [hv]⟩
+  rw [neighbors_eq] at hn ⊢
+  have h1 : 0 < (nbrsOf g.edges v).count n := List.count_pos_iff.2 hn
+  rw [count_nbrs_symm] at h1
+  exact List.count_pos_iff.1 h1
+
+/-- the hydrogen neighbours of a *heavy* atom are its preserved ones and its removed ones. -/
+theorem nH_sub (g : LGraph) (hn : g.ids.Nodup) (K : List Nat) (v : Nat) (hv : isH (g.attrs v) = false) :
     ((g.neighbors v).filter fun n => isH (g.attrs n)).length =
       ((g.neighbors v).filter fun n => (pres g K).contains n).length + folded g K v := by
   rw [filter_split (fun n => isH (g.attrs n)) (fun n => (pres g K).contains n)]
+  unfold folded
   congr 1
-  congr 1
-  apply List.filter_congr
-  intro n _
-  by_cases h : n ∈ pres g K
-  · simp [h, isH_of_mem_pres g hn K n h]
-  · simp [h]
+  · congr 1
+    apply List.filter_congr
+    intro n _
+    by_cases h : n ∈ pres g K
+    · simp [h, isH_of_mem_pres g hn K n h]
+    · simp [h]
+  · congr 1
+    apply List.filter_congr
+    intro n hnv
+    unfold goes
+    rw [hasHeavyNbr_of_nbr_heavy g v n hv hnv, Bool.and_true]
 
 theorem g2_nodes (g : LGraph) (hn : g.ids.Nodup) (K : List Nat) :
     (g2of (g1of g) (pres g K)).nodes = g.nodes.map (Ffin g K) := by
@@ -438,7 +497,7 @@ theorem g2_nodes (g : LGraph) (hn : g.ids.Nodup) (K : List Nat) :
     simp [h0, F1, Ffin, hH, decN]
   · simp only [Bool.not_eq_true] at hH
     have hc := count_decTargets g (pres g K) (pres_nodup g hn K) p.1 (by rw [hattr]; exact hH)
-    have hs := nH_sub g hn K p.1
+    have hs := nH_sub g hn K p.1 (by rw [hattr]; exact hH)
     simp only [F1, Ffin, hH, Bool.false_eq_true, if_false, decN_set, hc, nHof]
     congr 3
     rw [hs]; push_cast; ring
@@ -448,12 +507,23 @@ theorem isH_attrs_g2 (g : LGraph) (hn : g.ids.Nodup) (K : List Nat) (n : Nat) :
   rw [attrs_eq_attrsOf, attrs_eq_attrsOf, g2_nodes g hn K]
   exact isH_attrsOf_map g.nodes (Ffin g K) (Ffin_fst g K) (isH_Ffin g K) n
 
+theorem g2_edges (g : LGraph) (K : List Nat) : (g2of (g1of g) (pres g K)).edges = g.edges := by
+  rw [g2of_eq]; rfl
+
+theorem hasHeavyNbr_g2 (g : LGraph) (hn : g.ids.Nodup) (K : List Nat) (v : Nat) :
+    hasHeavyNbr (g2of (g1of g) (pres g K)) v = hasHeavyNbr g v := by
+  unfold hasHeavyNbr LGraph.neighbors
+  rw [g2_edges]
+  simp only [isH_attrs_g2 g hn K]
+
 /-- **Closed form, nodes.** -/
 theorem implicitH_nodes (g : LGraph) (hn : g.ids.Nodup) (K : List Nat) :
     (implicitHydrogen g K).nodes =
-      (g.nodes.filter fun p => !(isH p.2) || (pres g K).contains p.1).map (Ffin g K) := by
+      (g.nodes.filter fun p =>
+        !(isH p.2 && !((pres g K).contains p.1) && hasHeavyNbr g p.1)).map (Ffin g K) := by
   rw [implicitHydrogen_eq, presRaw_g1of]
   show (g2of (g1of g) (pres g K)).nodes.filter _ = _
+  simp only [hasHeavyNbr_g2 g hn K]
   rw [g2_nodes g hn K, List.filter_map]
   congr 1
   apply List.filter_congr
@@ -465,15 +535,14 @@ theorem implicitH_edges (g : LGraph) (hn : g.ids.Nodup) (K : List Nat) :
     (implicitHydrogen g K).edges = g.edges.filter fun e => stays g K e.1 && stays g K e.2.1 := by
   rw [implicitHydrogen_eq, presRaw_g1of]
   show (g2of (g1of g) (pres g K)).edges.filter _ = _
-  have he : (g2of (g1of g) (pres g K)).edges = g.edges := by rw [g2of_eq]; rfl
-  rw [he]
+  rw [g2_edges]
   apply List.filter_congr
   intro e _
-  simp only [isH_attrs_g2 g hn K, stays]
+  simp only [isH_attrs_g2 g hn K, hasHeavyNbr_g2 g hn K, stays, goes]
 
 theorem stays_of_mem (g : LGraph) (hn : g.ids.Nodup) (K : List Nat) (p : Nat × Attrs) (hp : p ∈ g.nodes) :
-    (!(isH p.2) || (pres g K).contains p.1) = stays g K p.1 := by
-  unfold stays; rw [attrs_eq_of_mem g hn p hp]
+    (!(isH p.2 && !((pres g K).contains p.1) && hasHeavyNbr g p.1)) = stays g K p.1 := by
+  unfold stays goes; rw [attrs_eq_of_mem g hn p hp]
 
 /-- **Closed form, nodes** (filter written on node ids). -/
 theorem implicitH_nodes' (g : LGraph) (hn : g.ids.Nodup) (K : List Nat) :
@@ -560,9 +629,12 @@ theorem totalH_implicitH (g : LGraph) (hwf : g.WF) (K : List Nat) (hg : FoldGuar
     · by_cases hk : p.1 ∈ pres g K
       · simp [stays, goes, hattr, hH, hk, Ffin]
       · have hk' := not_mem_pres_keepsH g hn K p hp hk
-        obtain ⟨h0, h1⟩ := hg p hp hH hk'
-        unfold heavyNbrs at h1
-        simp [stays, goes, hattr, hH, hk, h1, hval, h0]
+        cases hhv : hasHeavyNbr g p.1 with
+        | false => simp [stays, goes, hattr, hH, hk, hhv, Ffin]
+        | true =>
+          obtain ⟨h0, h1⟩ := hg p hp hH hk' ((hasHeavyNbr_iff g p.1).1 hhv)
+          unfold heavyNbrs at h1
+          simp [stays, goes, hattr, hH, hk, hhv, h1, hval, h0]
     · simp only [Bool.not_eq_true] at hH
       simp [stays, goes, hattr, hH, hval_Ffin_heavy g K p hH]
   have hsum := congrArg List.sum (List.map_congr_left hpt)
@@ -737,14 +809,6 @@ theorem SameMol.pres_eq (hA : A.ids.Nodup) (hB : B.ids.Nodup) (K : List Nat) (n 
   rw [Bool.eq_iff_iff, List.contains_iff_mem, List.contains_iff_mem, mem_pres A hA, mem_pres B hB,
     hAB.1 n, hAB.keepsH_eq K n]
 
-theorem SameMol.stays_eq (hA : A.ids.Nodup) (hB : B.ids.Nodup) (K : List Nat) (n : Nat) :
-    stays A K n = stays B K n := by
-  unfold stays; rw [hAB.isH_eq n, hAB.pres_eq hA hB K n]
-
-theorem SameMol.goes_eq (hA : A.ids.Nodup) (hB : B.ids.Nodup) (K : List Nat) (n : Nat) :
-    goes A K n = goes B K n := by
-  unfold goes; rw [hAB.isH_eq n, hAB.pres_eq hA hB K n]
-
 theorem SameMol.hasEdge_eq (u v : Nat) : A.hasEdge u v = B.hasEdge u v := by
   have := congrArg Option.isSome (hAB.2.2 u v)
   simpa [LGraph.hasEdge] using this
@@ -755,17 +819,28 @@ theorem SameMol.neighbors_perm (hA : A.WF) (hB : B.WF) (v : Nat) :
   intro x
   rw [mem_neighbors_iff, mem_neighbors_iff, hAB.hasEdge_eq]
 
-theorem SameMol.folded_eq (hA : A.WF) (hB : B.WF) (K : List Nat) (v : Nat) :
-    folded A K v = folded B K v := by
-  unfold folded
-  have : goes A K = goes B K := funext (hAB.goes_eq hA.1 hB.1 K)
-  rw [this]
-  exact ((hAB.neighbors_perm hA hB v).filter _).length_eq
-
 theorem SameMol.heavyNbrs_eq (hA : A.WF) (hB : B.WF) (v : Nat) : heavyNbrs A v = heavyNbrs B v := by
   unfold heavyNbrs
   have : (fun n => !(isH (A.attrs n))) = fun n => !(isH (B.attrs n)) := by
     funext n; rw [hAB.isH_eq n]
+  rw [this]
+  exact ((hAB.neighbors_perm hA hB v).filter _).length_eq
+
+theorem SameMol.hasHeavyNbr_eq (hA : A.WF) (hB : B.WF) (v : Nat) : hasHeavyNbr A v = hasHeavyNbr B v := by
+  rw [Bool.eq_iff_iff, hasHeavyNbr_iff, hasHeavyNbr_iff, hAB.heavyNbrs_eq hA hB v]
+
+theorem SameMol.goes_eq (hA : A.WF) (hB : B.WF) (K : List Nat) (n : Nat) :
+    goes A K n = goes B K n := by
+  unfold goes; rw [hAB.isH_eq n, hAB.pres_eq hA.1 hB.1 K n, hAB.hasHeavyNbr_eq hA hB n]
+
+theorem SameMol.stays_eq (hA : A.WF) (hB : B.WF) (K : List Nat) (n : Nat) :
+    stays A K n = stays B K n := by
+  unfold stays; rw [hAB.goes_eq hA hB K n]
+
+theorem SameMol.folded_eq (hA : A.WF) (hB : B.WF) (K : List Nat) (v : Nat) :
+    folded A K v = folded B K v := by
+  unfold folded
+  have : goes A K = goes B K := funext (hAB.goes_eq hA hB K)
   rw [this]
   exact ((hAB.neighbors_perm hA hB v).filter _).length_eq
 
@@ -793,16 +868,16 @@ theorem implicitH_congr (A B : LGraph) (hAB : SameMol A B) (hA : A.WF) (hB : B.W
     SameMol (implicitHydrogen A K) (implicitHydrogen B K) := by
   refine ⟨?_, ?_, ?_⟩
   · intro n
-    rw [mem_implicitH_ids A hA.1, mem_implicitH_ids B hB.1, hAB.1 n, hAB.stays_eq hA.1 hB.1 K n]
+    rw [mem_implicitH_ids A hA.1, mem_implicitH_ids B hB.1, hAB.1 n, hAB.stays_eq hA hB K n]
   · intro n hn k hk
     have hn' : n ∈ (implicitHydrogen B K).ids := by
       rw [mem_implicitH_ids A hA.1] at hn
-      rw [mem_implicitH_ids B hB.1, ← hAB.1 n, ← hAB.stays_eq hA.1 hB.1 K n]; exact hn
+      rw [mem_implicitH_ids B hB.1, ← hAB.1 n, ← hAB.stays_eq hA hB K n]; exact hn
     rw [implicitH_attrs A hA.1 K n hn, implicitH_attrs B hB.1 K n hn', Ffin_get, Ffin_get,
       hAB.isH_eq n, hAB.hraw_eq n, hAB.folded_eq hA hB K n, hAB.get_eq n k hk]
   · intro u v
-    rw [implicitH_edge? A hA.1, implicitH_edge? B hB.1, hAB.stays_eq hA.1 hB.1 K u,
-      hAB.stays_eq hA.1 hB.1 K v]
+    rw [implicitH_edge? A hA.1, implicitH_edge? B hB.1, hAB.stays_eq hA hB K u,
+      hAB.stays_eq hA hB K v]
     split
     · exact hAB.2.2 u v
     · rfl
@@ -833,11 +908,12 @@ theorem totalH_congr (A B : LGraph) (hAB : SameMol A B) (hA : A.ids.Nodup) (hB :
 /-- `FoldGuard` is a property of the labelled graph. -/
 theorem foldGuard_congr (A B : LGraph) (hAB : SameMol A B) (hA : A.WF) (hB : B.WF) (K : List Nat)
     (h : FoldGuard B K) : FoldGuard A K := by
-  intro p hp hH hk
+  intro p hp hH hk hhv
   have hattr := attrs_eq_of_mem A hA.1 p hp
   have hid : p.1 ∈ B.ids := (hAB.1 p.1).1 (List.mem_map.2 ⟨p, hp, rfl⟩)
   have hq := attrs_mem B p.1 hid
   have := h _ hq (by rw [← hAB.isH_eq, hattr]; exact hH) (by rw [← hAB.keepsH_eq, hattr]; exact hk)
+    (by rw [← hAB.heavyNbrs_eq hA hB]; exact hhv)
   simp only at this
   refine ⟨?_, ?_⟩
   · have h0 := this.1
@@ -909,19 +985,28 @@ theorem decompose_construct_wf (o : Opts) (G H : LGraph) (hG : G.WF) (hH : H.WF)
 
 theorem isH_nil : isH ([] : Attrs) = false := by decide
 
-/-- `stays` read off the attribute dict. -/
+/-- `stays` read off the attribute dict and the neighbourhood: a heavy atom, a preserved hydrogen,
+or a node without heavy neighbour. -/
 theorem stays_iff (g : LGraph) (hn : g.ids.Nodup) (K : List Nat) (u : Nat) :
-    stays g K u = true ↔ isH (g.attrs u) = false ∨ keepsH K (g.attrs u) = true := by
-  unfold stays
-  rw [Bool.or_eq_true, Bool.not_eq_true', List.contains_iff_mem, mem_pres g hn K]
+    stays g K u = true ↔
+      isH (g.attrs u) = false ∨ keepsH K (g.attrs u) = true ∨ hasHeavyNbr g u = false := by
+  unfold stays goes
+  rw [Bool.not_eq_true', Bool.and_eq_false_iff, Bool.and_eq_false_iff, Bool.not_eq_false',
+    List.contains_iff_mem, mem_pres g hn K, or_assoc]
   by_cases hu : u ∈ g.ids
   · simp [hu]
   · have : isH (g.attrs u) = false := by rw [attrs_nil_of_not_mem g u hu]; exact isH_nil
     simp [this]
 
 theorem goes_eq_not_stays (g : LGraph) (K : List Nat) (v : Nat) : goes g K v = !(stays g K v) := by
-  unfold goes stays
-  cases isH (g.attrs v) <;> cases (pres g K).contains v <;> rfl
+  unfold stays; rw [Bool.not_not]
+
+/-- `goes` read off the attribute dict and the neighbourhood. -/
+theorem not_stays_iff (g : LGraph) (hn : g.ids.Nodup) (K : List Nat) (u : Nat) :
+    ¬ stays g K u = true ↔
+      isH (g.attrs u) = true ∧ keepsH K (g.attrs u) = false ∧ hasHeavyNbr g u = true := by
+  rw [stays_iff g hn K u, not_or, not_or]
+  simp only [Bool.not_eq_false, Bool.not_eq_true]
 
 theorem edge?_none_of_not_mem (g : LGraph) (hwf : g.WF) (u v : Nat) (h : u ∉ g.ids ∨ v ∉ g.ids) :
     g.edge? u v = none := by
@@ -955,7 +1040,7 @@ theorem implicitH_get?_other (g : LGraph) (hn : g.ids.Nodup) (K : List Nat) (n :
   · rfl
   · exact Dict.get?_set_other _ _ _ _ hk
 
-/-- a preserved hydrogen keeps its whole attribute dict. -/
+/-- a hydrogen that stays (preserved, or without heavy neighbour) keeps its whole attribute dict. -/
 theorem implicitH_attrs_H (g : LGraph) (hn : g.ids.Nodup) (K : List Nat) (n : Nat)
     (h : n ∈ (implicitHydrogen g K).ids) (hH : isH (g.attrs n) = true) :
     (implicitHydrogen g K).attrs n = g.attrs n := by
@@ -968,7 +1053,7 @@ theorem implicitH_hcnt_heavy (g : LGraph) (hwf : g.WF) (K : List Nat) (n : Nat) 
     hcnt ((implicitHydrogen g K).attrs n) =
       hcnt (g.attrs n) +
         (((g.neighbors n).filter fun m => !((implicitHydrogen g K).hasNode m)).length : Nat) := by
-  have hst : stays g K n = true := by unfold stays; simp [hH]
+  have hst : stays g K n = true := by unfold stays goes; simp [hH]
   have hmem := (mem_implicitH_ids g hwf.1 K n).2 ⟨h, hst⟩
   rw [implicitH_attrs g hwf.1 K n hmem]
   have hf : ((g.neighbors n).filter fun m => !((implicitHydrogen g K).hasNode m)) =
